@@ -15,7 +15,9 @@
  *   b64i <targsize> <hex>  rfbBase64PtoN(src, src, targsize)   (in place, as the decoder does)
  *   sha1 <hex>             hash_sha1
  *   hs <hex>               webSocketsCheck() on a socketpair fed with the request bytes
- *   sess <tcp|wsbin|wsb64|wsrawbin|wsrawb64> <hexC> <frames> <sched>
+ *   sess <tcp|wsbin|wsb64|wsrawbin|wsrawb64> <hexC> <frames> <sched>      (application-driven rfbProcessEvents loop)
+ *   sesst ... same arguments, against the THREADED server (rfbRunEventLoop(screen,-1,TRUE), clientInput thread);
+ *                          the client then stays quiet and the harness waits (bounded) for the callback log
  *                          (wsraw*: hexC is the wire image after the HTTP request, frames = '-')
  *                          a complete server session on a socketpair: RFB client bytes C sent plain or
  *                          wrapped in WebSocket frames (<frames>: payload sizes, 'n+' = FIN clear, 'pK' = ping
@@ -37,6 +39,7 @@
 #include <sys/socket.h>
 #include <stdarg.h>
 #include <signal.h>
+#include <time.h>
 #include <sys/ioctl.h>
 #include "ws_decode.h"
 #include "base64.h"
@@ -156,12 +159,17 @@ ssize_t __wrap_read(int fd, void *buf, size_t n) {
   }
   return __real_read(fd, buf, n);
 }
+#include <pthread.h>
 static vs_buf g_cb;
+static pthread_mutex_t g_cb_mtx = PTHREAD_MUTEX_INITIALIZER;
 static void cb_add(const char *fmt, ...) {
   char t[128]; va_list ap; int k;
   va_start(ap, fmt); k = vsnprintf(t, sizeof t, fmt, ap); va_end(ap);
+  pthread_mutex_lock(&g_cb_mtx);
   vs_buf_add(&g_cb, (unsigned char *)t, (size_t)k);
+  pthread_mutex_unlock(&g_cb_mtx);
 }
+static size_t cb_len(void) { size_t n; pthread_mutex_lock(&g_cb_mtx); n = g_cb.n; pthread_mutex_unlock(&g_cb_mtx); return n; }
 static void cb_kbd(rfbBool down, rfbKeySym key, rfbClientPtr cl) { (void)cl; cb_add("K%d:%x;", down, (unsigned)key); }
 static void cb_ptr(int mask, int x, int y, rfbClientPtr cl) { (void)cl; cb_add("P%d:%d:%d;", mask, x, y); }
 static void cb_cut(char *str, int len, rfbClientPtr cl) { int i; (void)cl; cb_add("C%d:", len); for (i = 0; i < len; i++) cb_add("%02x", (unsigned char)str[i]); cb_add(";"); }
@@ -210,7 +218,7 @@ static void on_alarm(int sig) {
   (void)sig; fflush(stdout); if (write(1, m, sizeof m - 1) < 0) {} _exit(3);
 }
 
-static void do_sess(char *arg) {
+static void do_sess(char *arg, int threaded) {
   char *mode = strtok(arg, " "), *hexC = strtok(NULL, " "), *frames = strtok(NULL, " "), *sched = strtok(NULL, " ");
   int ws = mode && mode[0] == 'w', raw = mode && !strncmp(mode, "wsraw", 5);
   int b64 = mode && (!strcmp(mode, "wsb64") || !strcmp(mode, "wsrawb64"));
@@ -262,9 +270,23 @@ static void do_sess(char *arg) {
       ev_t e; e.k = 0; e.kind = tok[0] == 'a' ? 1 : 0; if (!e.kind) e.k = atol(tok);
       g_sev = (ev_t *)realloc(g_sev, (g_nsev + 1) * sizeof(ev_t)); g_sev[g_nsev++] = e; tok = strtok(NULL, ","); } }
   alarm(6);                        /* watchdog: rfbProcessEvents must return */
+  if (threaded) rfbRunEventLoop(s, -1, TRUE);   /* threaded server: listener thread + one input thread per client */
   cl = rfbNewClient(s, sv[0]);     /* the HTTP upgrade request is read here, unsegmented */
   g_wrap_fd = sv[0];               /* the read schedule applies to the RFB / frame bytes */
-  if (cl) {
+  if (cl && threaded) {
+    /* the client's input thread (clientInput) does all the work; then the client stays quiet: wait (bounded)
+       until nothing has moved for 200 ms */
+    int idle = 0, rounds = 0;
+    rfbStartOnHoldClient(cl);
+    while (idle < 20 && rounds < 500) {
+      size_t before = srv.n, cbefore = cb_len(); int avail = 0; struct timespec ts = { 0, 10 * 1000 * 1000 };
+      nanosleep(&ts, NULL);
+      vs_drain(sv[1], &srv);
+      if (ioctl(sv[0], FIONREAD, &avail) < 0) break;
+      if (avail == 0 && srv.n == before && cb_len() == cbefore) idle++; else idle = 0;
+      rounds++;
+    }
+  } else if (cl) {
     /* pump until the server has consumed everything that was sent (rfbProcessEvents does not report
        input-only progress, so idleness is judged by the bytes still unread on the server's socket) */
     int idle = 0, rounds = 0;
@@ -288,10 +310,17 @@ static void do_sess(char *arg) {
     size_t i; for (i = 0; i + 3 < srv.n; i++) if (!memcmp(srv.p + i, "\r\n\r\n", 4)) { hdr_end = i + 4; hs_ok = !memcmp(srv.p, "HTTP/1.1 101", 12); break; }
     frames_ok = hs_ok && unwrap(srv.p + hdr_end, srv.n - hdr_end, b64, &rfbout);
   } else { hs_ok = 1; vs_buf_add(&rfbout, srv.p, srv.n); }
-  printf("sess hs=%d frames_ok=%d alive=%d cb=", hs_ok, frames_ok, alive); puthex(g_cb.p, g_cb.n);
+  printf("%s hs=%d frames_ok=%d alive=%d cb=", threaded ? "sesst" : "sess", hs_ok, frames_ok, alive); puthex(g_cb.p, cb_len());
   printf(" out="); puthex(rfbout.p, rfbout.n); printf("\n");
   close(sv[1]);
-  vs_pump(s, 0, NULL, NULL);
+  if (threaded) {
+    int k;
+    for (k = 0; k < 200; k++) {                 /* the input thread notices the EOF and reaps the client */
+      rfbClientIteratorPtr it = rfbGetClientIterator(s); int there = rfbClientIteratorNext(it) != NULL; struct timespec ts = { 0, 5 * 1000 * 1000 };
+      rfbReleaseClientIterator(it); if (!there) break; nanosleep(&ts, NULL);
+    }
+    rfbShutdownServer(s, TRUE);
+  } else vs_pump(s, 0, NULL, NULL);
   rfbScreenCleanup(s);
   free(C); free(wire.p); free(srv.p); free(rfbout.p);
 }
@@ -405,7 +434,8 @@ int main(void) {
       printf(" resp="); puthex(o, m); printf("\n");
       free(o); free(b); if (cl->wsctx) free(cl->wsctx); if (cl->wspath) free(cl->wspath); free(cl); close(sv[0]); close(sv[1]);
     }
-    else if (!strcmp(line, "sess")) do_sess(arg);
+    else if (!strcmp(line, "sess")) do_sess(arg, 0);
+    else if (!strcmp(line, "sesst")) do_sess(arg, 1);
     else printf("?? %s\n", line);
   }
   return 0;
